@@ -13,42 +13,47 @@ CLAIMED = {
                 text="Exhaustive agreement of finite tables: the scanner's character-class/metaclass tables (reconstructed from the "
                      "INIT_V2_SCANNER / SET_V1 stores) equal the CIF 2.0 / 1.1 lexical grammar; every production switch accepts all "
                      "five value-starting token kinds and dispatches them alike; reserved-word recognisers agree. These are necessary "
-                     "conditions of correct parsing; the scanner's transitions on arbitrary documents are not decided.",
+                     "conditions of correct parsing; the scanner's transitions on arbitrary documents are not decided. "
+                     "Also: the scanner's end-of-input mark (CIF_EOF) is returned by no scan/parse function other than the refill functions (flow-sensitive may-return analysis), and the closing-delimiter run counter of triple-quoted strings is reset by every other character.",
                 note=TB + "; the grammar table transcribed in cifsa/rules/c01.py",
-                tech="constant-table reconstruction from AST stores + switch/case-label dispatch analysis on CFGs"),
+                tech="constant-table reconstruction from AST stores + switch/case-label dispatch analysis on CFGs; may-return value analysis (A1) iterated over the call graph; run-counter reset reachability"),
     "C02": dict(level="other", ref="5 C02",
                 text="Necessary conditions of write/re-parse agreement decided on the code's shape: magic code spelled identically in "
                      "writer, cif_parse and parser; every emitting function of ciffile.c stores last_column after every emission on "
                      "every success path and every length-limited primitive compares it with the 2048 limit before emitting "
                      "(path-universal dataflow); delimiter choice has a single source. Round-trip equality is not decided. "
-                     "Also: with write_char's arguments substituted, the writers' indexes into the analysed text stay within it and their success tests are satisfiable; magic comparisons use the full code for '== 0' and the version-independent prefix for '!= 0'.",
+                     "Also: with write_char's arguments substituted, the writers' indexes into the analysed text stay within it and their success tests are satisfiable; magic comparisons use the full code for '== 0' and the version-independent prefix for '!= 0'. "
+                     "Also (text fields and layout): every logical line of a folded/prefixed text field gets its line terminator, a protected line its empty continuation line; the prefix/refusal decision depends on a leading semicolon and the fold decision on the prefix length; %S precisions are counted in UChar units; no local copy of last_column is used after output moved the column.",
                 note=TB + "; ICU u_fprintf/u_fputc return conventions (count written / character written)",
-                tech="table agreement + emission/accounting typestate dataflow + who-may-call on the call graph; inter-procedural linear substitution of call arguments"),
+                tech="table agreement + emission/accounting typestate dataflow + who-may-call on the call graph; inter-procedural linear substitution of call arguments; per-iteration must-pass-through with branch facts; dependence closure incl. control dependence; staleness may-dataflow; units of printf precisions"),
     "C03": dict(level="other", ref="5 C03",
                 text="Structural form of the error-callback contract, path-universal over all 50 callback sites of the parser and up the "
                      "call chain: a non-zero callback result (or failing callee result) reaches a return of that very value with no "
                      "further scanning, storing or callback; positive codes originate only from resource/internal conditions; every "
                      "input-defect code a library call may return is routed to the callback or frozen in a cannot-occur table with "
                      "its reason. Termination, memory safety on arbitrary bytes and post-abort consistency are not decided. "
-                     "Also (termination/bounds, necessary conditions only): no loop of the parser units is idempotent, and no read-buffer pointer is dereferenced under '<=' against an exclusive end.",
+                     "Also (termination/bounds, necessary conditions only): no loop of the parser units is idempotent, and no read-buffer pointer is dereferenced under '<=' against an exclusive end. "
+                     "Also: no parser function returns the scanner's private CIF_EOF mark (a defined result code is returned).",
                 note=TB + "; flow-insensitive may-return-code summaries (over-approximate); the cannot-occur table was triaged by reading "
                      "each call site; 5 genuine defects are recorded as known findings",
-                tech="verdict-propagation typestate dataflow + may-return-code summaries over the call graph; natural-loop read/write analysis"),
+                tech="verdict-propagation typestate dataflow + may-return-code summaries over the call graph; natural-loop read/write analysis; may-return value analysis (A1) over the call graph"),
     "C04": dict(level="other", ref="5 C04",
                 text="The schema and statement layer the data model rests on: SQLite's own parser run on the embedded DDL and on all "
                      "embedded statements (compiling program text in an empty in-memory database, not running cif_api) yields keys, "
                      "uniqueness, cascades, triggers; every statement type-checks; every C bind/column index is in range; key "
                      "parameters are bound on every path to each step (dataflow); trigger messages equal the C strings compared with "
                      "sqlite3_errmsg. Results of arbitrary API histories are not decided. "
-                     "Every reference to loop / loop_item / item_value in every query block of the embedded statements is tied to a container (R5).",
+                     "Every reference to loop / loop_item / item_value in every query block of the embedded statements is tied to a container (R5). "
+                     "Also: every decision 'this category is the scalar category' answers no for a NULL category (three-valued evaluation of the controlling expression, or dominance by a non-NULL test).",
                 note=TB + "; SQLite (python3 sqlite3 module) as parser of the embedded SQL; a light tokenizer maps ?-parameters to columns",
-                tech="static analysis of embedded SQL + bind/column site join + must-bind dataflow"),
+                tech="static analysis of embedded SQL + bind/column site join + must-bind dataflow; three-valued evaluation of branch conditions"),
     "C05": dict(level="proof", ref="5 C05",
                 text="Path-universal transaction typestate over the CFG of every function that reaches a transaction event or a "
                      "modifying statement: depth balanced on every exit, no failure return after a successful commit, no success "
                      "after rolling back modifications, multi-statement modifications only inside a transaction. This decides "
                      "the structural necessary condition of failure-atomicity (all exits x all functions), not database contents. "
-                     "The typestate distinguishes COMMIT/ROLLBACK (end every level, enclosing ones included) from RELEASE/ROLLBACK TO and records what sqlite3_get_autocommit said about an enclosing transaction.",
+                     "The typestate distinguishes COMMIT/ROLLBACK (end every level, enclosing ones included) from RELEASE/ROLLBACK TO and records what sqlite3_get_autocommit said about an enclosing transaction. "
+                     "Also: a function whose own level is `savepoint s` never calls one that can set `savepoint s` (ROLLBACK TO keeps the savepoint), and no plain ROLLBACK runs without an own transaction where an enclosing one is not excluded.",
                 note=TB + "; SQLite transaction semantics (rollback restores the begin/savepoint state; single statements are atomic)",
                 tech="typestate dataflow (status-sensitive, disjunctive) over clang CFGs + call-graph summaries"),
     "C06": dict(level="other", ref="5 C06",
@@ -63,9 +68,10 @@ CLAIMED = {
                      "(SET_VALUE_PROPS) for every writer x reader statement, resolved through the statements' own column lists; "
                      "serialise/deserialise pairs move the same width sequences and nest the same codecs; table flags agree; "
                      "SQLITE_STATIC binds outlive the step; buffer primitives clamp. Equality of round-tripped values is not decided. "
-                     "Also: no storage loop is idempotent (the buffer-growth loop advances); an attribute read back from storage is not overwritten by a later callee's constant store (mod-set summaries).",
+                     "Also: no storage loop is idempotent (the buffer-growth loop advances); an attribute read back from storage is not overwritten by a later callee's constant store (mod-set summaries). "
+                     "Also: serialiser and deserialiser agree on which field each string position holds; the sign of a number (not stored) is recomputed from the text.",
                 note=TB + "; SQLite as parser of the embedded SQL",
-                tech="writer/reader table extraction from macro expansions in the AST + agreement checks; loop-carried-state analysis + last-store mod-set summaries over the call graph"),
+                tech="writer/reader table extraction from macro expansions in the AST + agreement checks; loop-carried-state analysis + last-store mod-set summaries over the call graph; positional field correspondence through locals"),
     "C08": dict(level="other", ref="5 C08",
                 text="Necessary conditions of buffer-boundary independence decided on the scanner's code: may-dataflow over every function "
                      "of parser.c showing that no local derived from the scan window is read after a (transitive) call to "
@@ -73,50 +79,56 @@ CLAIMED = {
                      "or un-reads the character, and the copies of the accounting agree; get_more_chars re-bases all window pointers "
                      "when it moves data and decrements the character count once per folded CR LF pair. Value-level arithmetic of the "
                      "folding and alignment independence in general are not decided. "
-                     "Also: per-character scan state is not reset on the refill path; every character delivered by the character source is accounted in buffer_limit; a CR ending a read is remembered in the scanner.",
+                     "Also: per-character scan state is not reset on the refill path; every character delivered by the character source is accounted in buffer_limit; a CR ending a read is remembered in the scanner. "
+                     "Also: the byte-to-character source is marked drained only on paths where the converter status excludes U_BUFFER_OVERFLOW_ERROR.",
                 note=TB + "; functions that may refill = transitive callers of get_more_chars within parser.c",
-                tech="staleness may-dataflow + must-pass-through / pairing queries on CFGs; loop nesting + upward-exposed-use analysis"),
+                tech="staleness may-dataflow + must-pass-through / pairing queries on CFGs; loop nesting + upward-exposed-use analysis; guard-edge reachability from the conversion call"),
     "C09": dict(level="other", ref="5 C09",
                 text="Who-may-reach rule over the resolved program: every string reaching a key position (a `name` column of an embedded "
                      "statement, or a uthash key) is normaliser output, a field whose stores are all normaliser output, or an "
                      "already-normalised parameter whose call sites are checked recursively; cif_normalize runs NFD -> case fold -> "
                      "NFC chained through its buffers, and the validating variants validate first. What ICU computes and the per-code-"
-                     "point accept/reject boundary are not decided.",
+                     "point accept/reject boundary are not decided. "
+                     "Also: data names are (re-)validated by the data-name normaliser and codes by the code normaliser, decided from the tables each function's statements touch.",
                 note=TB + "; SQLite as parser of the embedded SQL; frozen already-normalised parameter table (DESIGN.md A.3)",
-                tech="who-may-reach / must-pass-through over call graph and bind sites + call-order check"),
+                tech="who-may-reach / must-pass-through over call graph and bind sites + call-order check; statement-table domain inference per function"),
     "C10": dict(level="other", ref="5 C10",
                 text="NARROW CLAIM: only the refusal-atomicity clause ('refuses ... without modifying the value') is decided, as a "
                      "reachability obligation on the CFGs of cif_value_parse_numb and cif_value_init_numb (every store through the "
                      "target value is followed only by `return CIF_OK`), plus the refusal codes. Acceptance of exactly the numeric "
                      "syntax, correct rounding in both directions and formatting quantify over doubles and digit strings; no static "
-                     "argument in reach bounds them and they are NOT decided by this check.",
+                     "argument in reach bounds them and they are NOT decided by this check. "
+                     "One lexical necessary condition is added: digit runs are consumed whole (a digit loop is left only on a failed digit test), so well-formed numbers are not refused for an unparsed tail.",
                 note=TB + "; everything numeric in C10 is outside the reach of this technique",
-                tech="CFG reachability (store-then-only-success-exit)"),
+                tech="CFG reachability (store-then-only-success-exit); must-fact dataflow over the scan cursor"),
     "C11": dict(level="other", ref="5 C11",
                 text="Narrow structural claim: the dialect-selecting magic code agrees in all places where it is emitted or compared "
                      "(incl. the common 7-character prefix), and CIF_WRONG_ENCODING / the BOM CIF_DISALLOWED_CHAR / SET_V1 sit exactly "
                      "under their version guards. The option x leading-bytes decision table needs evaluation on data: not decided. "
-                     "The comparison polarity rule: a '!= 0' test ('no magic code of any version') compares only the version-independent prefix.",
+                     "The comparison polarity rule: a '!= 0' test ('no magic code of any version') compares only the version-independent prefix. "
+                     "Also: every expansion of the per-character validation macro reports U+FEFF as CIF_DISALLOWED_CHAR in both dialects (a BOM is accepted only as the first character).",
                 note=TB,
-                tech="constant-table agreement + guard-edge dominance on the CFG; comparison-polarity check"),
+                tech="constant-table agreement + guard-edge dominance on the CFG; comparison-polarity check; conditional constant propagation of the validation macro over its CFG for chosen code units"),
     "C12": dict(level="other", ref="5 C12",
                 text="Agreement of three finite tables (codes that can reach the callback incl. case labels guarding variable codes; the "
                      "parser's documented recovery table read from parser.c; the 26 defect classes of the property) plus, per documented "
                      "row, a CFG check that accepting the error consumes the offending token ('drop/ignore' rows) or leaves it "
                      "('assume the missing ...' rows). Reported positions and exact recovered content are not decided; C03 R1/R2 "
                      "(verdict propagation, routing) are prerequisites checked under C03. "
-                     "Also: the over-length test allows for a terminator already counted in the column (must-dataflow), and every hand-written move of next_char has the matching column change.",
+                     "Also: the over-length test allows for a terminator already counted in the column (must-dataflow), and every hand-written move of next_char has the matching column change. "
+                     "Also: the per-character validation macro reports exactly the non-character code units among chosen probes; no BACK_UP is reachable from an end-of-input outcome without a character scanned in between.",
                 note=TB + "; the recovery table in parser.c's documentation comment is the oracle for actions",
-                tech="table agreement + must/may token-consumption queries on CFGs; must-fact dataflow for column/terminator accounting"),
+                tech="table agreement + must/may token-consumption queries on CFGs; must-fact dataflow for column/terminator accounting; conditional constant propagation over a macro expansion; fact-consistent reachability"),
     "C13": dict(level="other", ref="5 C13",
                 text="In CIF 1.1 mode every CIF-supplied string reaching the output stream has passed cif_validate_cif11_characters "
                      "with CIF_OK on every path (who-may-emit closure over text-forwarding writers + per-variable must-validate "
                      "dataflow with the mode as status variable); lists/tables/triple quotes/delimiter-containing text fields are "
                      "refused; the validator's table is the CIF 1.1 character set and is indexed within bounds. "
-                     "Also: the analyser statistic behind the text-field refusal (contains_text_delim) is accumulated monotonically.",
+                     "Also: the analyser statistic behind the text-field refusal (contains_text_delim) is accumulated monotonically. "
+                     "Also the text-field body rules shared with C02 (line terminators, protected lines, leading semicolon, prefix length in the fold decision).",
                 note=TB + "; write_context_t.version is constant during a write (checked: stored only by cif_write); one named "
                      "exemption: text of unquoted numbers",
-                tech="typestate dataflow (validated-set) + forwarder summaries + guard dominance + table agreement; monotone-update check"),
+                tech="typestate dataflow (validated-set) + forwarder summaries + guard dominance + table agreement; monotone-update check; per-iteration must-pass-through with branch facts"),
     "C14": dict(level="other", ref="5 C14",
                 text="Finite-domain abstract interpretation of cif_walk and its five helpers: every handler call and child walk is split "
                      "into six answer classes (CONTINUE, SKIP_CURRENT, SKIP_SIBLINGS, END, positive, other negative), flags record the "
@@ -144,7 +156,7 @@ CLAIMED = {
                      "process-wide state (path-sensitive setlocale save/restore, no fenv/env/signal calls); unbounded signed decimal "
                      "accumulation and kind-before-fields. Absence of undefined behaviour in general (value ranges of all arithmetic, "
                      "array *elements*, SQLite/ICU internals) is not decided. "
-                     "Also: key/key_orig aliasing discipline at every free; allocation extent vs constant-offset index; realloc growth increment >= 1 (interval evaluation); exclusive-end guards; no pointer field freed while the kind that owns it stays set.",
+                     "Also: key/key_orig aliasing discipline at every free; allocation extent vs constant-offset index; realloc growth increment >= 1 (interval evaluation); exclusive-end guards; no pointer field freed while the kind that owns it stays set; a stored `capacity` equals the element count of the block allocated for the same object.",
                 note=TB + "; frozen allocator table (own.ALLOC_OUT, 44 entries), 4 named exemptions (DESERIALIZE macro family, parse_table's "
                      "dead allocating arm); linked-list / hash / array elements are outside the alias model; 3 genuine defects are "
                      "recorded as known findings",
@@ -156,7 +168,7 @@ CLAIMED = {
                      "ownership typestate restricted to paths through a failed allocation (clean-up ladders); no exit leaves a "
                      "transaction open. SQLite's/ICU's own OOM behaviour and 'the same call succeeds when repeated' are not decided. "
                      "Also: after v->kind = K no failure path frees K's fields and returns with the kind still set. "
-                     "Further structural rules: a fresh handle reaches its release function only with every field that function reads assigned (R9); failure handlers reached from a uthash insertion that ran out of memory do not walk the table (R10, six known findings: uthash 1.9.9 cannot be unwound); `*out` is re-assigned after its referent was released (R11); a callee's CIF_MEMORY_ERROR is never re-labelled (R8); no `p = realloc(p, n)` (R7); the DESERIALIZE family releases fields before the shell (R6).",
+                     "Further structural rules: a fresh handle reaches its release function only with every field that function reads assigned (R9); failure handlers reached from a uthash insertion that ran out of memory do not walk the table (R10, six known findings: uthash 1.9.9 cannot be unwound); `*out` is re-assigned after its referent was released (R11); a callee's CIF_MEMORY_ERROR is never re-labelled (R8); no `p = realloc(p, n)` (R7); the DESERIALIZE family releases fields before the shell (R6); `*_clean` helpers leave the counters of a released block at 0 (R13).",
                 note=TB + "; may-return-code summaries decide which callees can report memory failure",
                 tech="must-fact dataflow per allocation site + dropped-failure typestate + ownership typestate on OOM paths; kind/field release ordering on CFGs"),
     "C18": dict(level="other", ref="5 C18",
@@ -164,7 +176,7 @@ CLAIMED = {
                      "cif_is_reserved_string equal the scanner's token-ending / token-starting classes; reserved words agree with "
                      "next_token; the analyser's length margins equal the writer's delimiter overheads and its delim_length values are "
                      "the writer's case labels. Read-back of each recommended form is not decided. "
-                     "Also: guards on the way to recommending delimiter D test evidence about D only; whole-string statistics are accumulated monotonically.",
+                     "Also: guards on the way to recommending delimiter D test evidence about D only; whole-string statistics are accumulated monotonically; the parser's closing-delimiter counter counts contiguous characters (reset by every other character), as the analyser's u_strstr test assumes.",
                 note=TB,
                 tech="constant/operand extraction from ASTs + table agreement; edge-dominance evidence check"),
     "C19": dict(level="other", ref="5 C19",
@@ -174,7 +186,7 @@ CLAIMED = {
                      "always ends in kind = CIF_UNK_KIND; list/table accessors test kind and index (with the right comparison) "
                      "before touching members and return the documented codes; the list grows before a slot beyond its capacity is "
                      "written. Structural equality of clones and map semantics under key variants are not decided. "
-                     "Also: realloc growth increment >= 1; replacing or releasing one of an entry's key/key_orig never frees the allocation the other still uses.",
+                     "Also: realloc growth increment >= 1; replacing or releasing one of an entry's key/key_orig never frees the allocation the other still uses; `*_clean` helpers reset the pointers they free and the counters that bound the freed block.",
                 note=TB + "; 3 documented ownership-transfer exemptions (init_char text, parse_numb text, create_norm names)",
                 tech="escape (no-alias) analysis with interprocedural summaries + must-call-before / guard dominance on CFGs; interval evaluation; alias-pair free discipline"),
     "C20": dict(level="proof", ref="5 C20",
